@@ -11,7 +11,7 @@ import (
 
 var noEffectPkgs = []string{
 	"github.com/pingcap/log", "go.uber.org/zap", "github.com/prometheus/", "github.com/pingcap/failpoint",
-	"log", "github.com/sirupsen/logrus", "github.com/opentracing/",
+	"log", "github.com/sirupsen/logrus", "github.com/opentracing/", "github.com/juju/ratelimit",
 }
 
 // functions of these packages have no effect on the modelled heap; their results are
@@ -62,6 +62,9 @@ func (s *Session) call(fr *Frame, cc *ssa.CallCommon, st *State, instr *ssa.Call
 		args[i] = s.valueOf(fr, a)
 	}
 	resT := cc.Signature().Results()
+	if fr.top && fr.contract != nil && len(fr.contract.Ats) > 0 {
+		s.callSiteAsserts(fr, cc, st, instr)
+	}
 	if cc.IsInvoke() {
 		recv := s.valueOf(fr, cc.Value)
 		return s.invoke(fr, cc, recv, args, st)
@@ -147,6 +150,12 @@ func (s *Session) staticCall(fr *Frame, fn *ssa.Function, bindings []Val, args [
 		}
 		s.havocAll(st)
 		return s.freshResult(st, res, fn.Name())
+	}
+	if strings.HasPrefix(pkg, "github.com/pingcap/kvproto") {
+		if strings.HasPrefix(fn.Name(), "Get") && len(fn.Blocks) > 0 && fr.depth < maxInlineDepth+2 {
+			return s.inline(fr, fn, bindings, args, st)
+		}
+		return s.pureCall(fn, args, st)
 	}
 	if hasPrefixAny(pkg, purePkgs) || opaque {
 		return s.pureCall(fn, args, st)
@@ -316,9 +325,12 @@ func (s *Session) applyContract(fr *Frame, c *Contract, fn *ssa.Function, sig *t
 	pkgT := s.eng.typesPkg(c.Pkg)
 	se := &SpecEnv{sess: s, pkg: pkgT, vars: env, st: st, old: st}
 	for i, rq := range c.Requires {
-		f := s.evalBool(se, rq.E)
-		s.addObl(&Obligation{Name: fmt.Sprintf("%s/pre@%s#%d.%s", fr.oblPfx, short, ord, clauseName(rq, i)), Kind: "pre", Func: fr.oblPfx, Src: "requires " + rq.Src + "   [callee " + ckey + "]", Guard: st.Reach, Formula: f})
-		s.assume(Imp(st.Reach, f)) // continue as if it held (avoid cascades)
+		subs := splitClause(rq)
+		for _, sub := range subs {
+			f := s.evalBool(se, sub.E)
+			s.addObl(&Obligation{Name: fmt.Sprintf("%s/pre@%s#%d.%s", fr.oblPfx, short, ord, clauseNameSplit(rq, i, sub, len(subs))), Kind: "pre", Func: fr.oblPfx, Src: "requires " + sub.Src + "   [callee " + ckey + "]", Guard: st.Reach, Formula: f})
+			s.assume(Imp(st.Reach, f)) // continue as if it held (avoid cascades)
+		}
 	}
 	old := st.clone()
 	// havoc the frame
@@ -727,7 +739,7 @@ func (s *Session) scanCall(fr *Frame, cc *ssa.CallCommon, mods map[string]string
 		}
 		return all
 	}
-	if hasPrefixAny(pkg, purePkgs) || opaque {
+	if hasPrefixAny(pkg, purePkgs) || opaque || strings.HasPrefix(pkg, "github.com/pingcap/kvproto") {
 		return false
 	}
 	return true
@@ -869,4 +881,64 @@ func noRefs(res *types.Tuple) bool {
 		}
 	}
 	return true
+}
+
+func calleeName(cc *ssa.CallCommon) string {
+	if cc.IsInvoke() {
+		return cc.Method.Name()
+	}
+	switch c := cc.Value.(type) {
+	case *ssa.Function:
+		return c.Name()
+	case *ssa.Builtin:
+		return c.Name()
+	case *ssa.MakeClosure:
+		return c.Fn.Name()
+	}
+	return ""
+}
+
+// callSiteAsserts: `at NAME K assert E` clauses, K = source-order ordinal of calls to NAME in this function.
+func (s *Session) callSiteAsserts(fr *Frame, cc *ssa.CallCommon, st *State, instr *ssa.Call) {
+	name := calleeName(cc)
+	if name == "" || instr == nil {
+		return
+	}
+	if fr.callSites == nil {
+		fr.callSites = map[ssa.Instruction]int{}
+		byName := map[string][]ssa.Instruction{}
+		for _, b := range fr.fn.Blocks {
+			for _, in := range b.Instrs {
+				if c, ok := in.(*ssa.Call); ok {
+					n := calleeName(&c.Call)
+					byName[n] = append(byName[n], in)
+				}
+			}
+		}
+		for _, list := range byName {
+			sort.SliceStable(list, func(i, j int) bool { return list[i].Pos() < list[j].Pos() })
+			for i, in := range list {
+				fr.callSites[in] = i + 1
+			}
+		}
+	}
+	k := fr.callSites[instr]
+	clauses := fr.contract.Ats[fmt.Sprintf("%s#%d", name, k)]
+	if len(clauses) == 0 {
+		return
+	}
+	idx := -1
+	for i, in := range instr.Block().Instrs {
+		if in == ssa.Instruction(instr) {
+			idx = i
+		}
+	}
+	for i, cl := range clauses {
+		subs := splitClause(cl)
+		for _, sub := range subs {
+			f := s.evalBoolClauseAt(fr, sub, st, instr.Block(), idx)
+			s.addObl(&Obligation{Name: fmt.Sprintf("%s/assert@%s#%d.%s", fr.oblPfx, name, k, clauseNameSplit(cl, i, sub, len(subs))), Kind: "assert", Func: fr.oblPfx, Src: "at call " + name + ": " + sub.Src, Guard: st.Reach, Formula: f})
+			s.assume(Imp(st.Reach, f))
+		}
+	}
 }
